@@ -21,11 +21,14 @@ Arg(parentOp, child, text) == IF Wraps(parentOp) /\ ~Simple(child) THEN "(" \o t
 
 \* Walk(T, k, m): the calls made for subtree T when k calls were made before; ok = FALSE once an operator has no
 \* function (the calls made until then are kept: children are rendered before the parent's function is looked up)
-Call(op, lab, l, r, k) == [op |-> op, l |-> l, r |-> r, ret |-> Ret(lab, k)]
+\* l, r = the arguments as Base passes them (MECH); lb, rb = the bare rendered children: the property allows the
+\* arguments to be the children "wrapped in parentheses at most" (REF)
+Call(op, lab, l, r, lb, rb, k) == [op |-> op, l |-> l, r |-> r, lb |-> lb, rb |-> rb, ret |-> Ret(lab, k)]
 Res(calls, ret, k, ok) == [calls |-> calls, ret |-> ret, k |-> k, ok |-> ok]
-Node(op, l, r, calls, k, m) ==
-  IF op \in DOMAIN m THEN Res(Append(calls, Call(op, m[op], l, r, k + 1)), Ret(m[op], k + 1), k + 1, TRUE)
+Node2(op, l, r, lb, rb, calls, k, m) ==
+  IF op \in DOMAIN m THEN Res(Append(calls, Call(op, m[op], l, r, lb, rb, k + 1)), Ret(m[op], k + 1), k + 1, TRUE)
   ELSE Res(calls, "", k, FALSE)
+Node(op, l, r, calls, k, m) == Node2(op, l, r, l, r, calls, k, m)
 
 RECURSIVE Walk(_,_,_), WalkItems(_,_,_,_,_,_)
 \* list items are rendered left to right and joined with ", "
@@ -39,7 +42,7 @@ Walk(T, k, m) ==
   CASE T.op \in FLeafOps -> Node(T.op, Ser(T), "", <<>>, k, m)
     [] T.op \in {"NOT","MUST","MUST_NOT","FUZZY","BOOST"} ->
          LET a == Walk(T.l, k, m) IN
-         IF ~a.ok THEN a ELSE Node(T.op, Arg(T.op, T.l, a.ret), "", a.calls, a.k, m)
+         IF ~a.ok THEN a ELSE Node2(T.op, Arg(T.op, T.l, a.ret), "", a.ret, "", a.calls, a.k, m)
     [] T.op = "RANGE" ->
          LET a == Walk(T.l, k, m) IN IF ~a.ok THEN a ELSE
          LET lo == Walk(T.lo, a.k, m) IN IF ~lo.ok THEN Res(a.calls \o lo.calls, "", lo.k, FALSE) ELSE
@@ -54,7 +57,7 @@ Walk(T, k, m) ==
     [] OTHER ->     \* AND OR EQUALS LIKE GREATER LESS GREATER_EQ LESS_EQ
          LET a == Walk(T.l, k, m) IN IF ~a.ok THEN a ELSE
          LET b == Walk(T.r, a.k, m) IN IF ~b.ok THEN Res(a.calls \o b.calls, "", b.k, FALSE) ELSE
-         Node(T.op, Arg(T.op, T.l, a.ret), Arg(T.op, T.r, b.ret), a.calls \o b.calls, b.k, m)
+         Node2(T.op, Arg(T.op, T.l, a.ret), Arg(T.op, T.r, b.ret), a.ret, b.ret, a.calls \o b.calls, b.k, m)
 
 Fold(T, m) == Walk(T, 0, m)
 
